@@ -154,9 +154,9 @@ def sampled_schedules(chk, name, algs, programs, maxrun, maxreload, rate, focus,
     return parse_scheds(res)
 
 
-def gen_focus_all(chk, programs, name='focus1t_all', maxrun=3, maxfault=0):
+def gen_focus_all(chk, programs, name='focus1t_all', maxrun=3, maxfault=0, spec='GenSpecFocus', targets=('T1',)):
     cfg = os.path.join(chk.work, f'{name}.cfg')
-    tlc.write_cfg(cfg, spec='GenSpecFocus', constants=consts(ALG3, programs, maxrun, 0, targets=['T1'], maxfault=maxfault), extra=['VIEW View', 'ACTION_CONSTRAINT Emit'])
+    tlc.write_cfg(cfg, spec=spec, constants=consts(ALG3, programs, maxrun, 0, targets=list(targets), maxfault=maxfault), extra=['VIEW View', 'ACTION_CONSTRAINT Emit'])
     res = tlc.run('Sched_Gen.tla', cfg, workers=1, timeout=1800, out_file=os.path.join(chk.work, f'{name}.out'))
     if not res.ok:
         raise core.Machinery(f'generation {name} failed: {res.error or res.violated}')
@@ -360,14 +360,34 @@ def run(pid, tier, seed, replay=None):
     # 2. GEN
     scheds = gen_schedules(chk, 'gen3', ALG3, 'Programs3Alg', 1, 0)
     total_transitions = len(scheds)
+    scheds = leaves(scheds)
     if not thorough:
         rnd.shuffle(scheds)
         scheds = scheds[:1200]
     # deep histories (3 requests, one target): EVERY transition of 3 (quick) / 9 (thorough) focus programs ...
     focus = gen_focus_all(chk, 'Programs3Focus' if thorough else 'Programs3Quick')
+    total_focus = len(focus)
+    focus = leaves(focus)
     # dispatch passes cut short by an exception (the code expects rerunid()/the database to throw): every transition of
     # the 2-request instance with one (quick) / two (thorough) such passes, maximal histories only
     faulty = leaves(gen_focus_all(chk, 'Programs3Focus' if thorough else 'Programs3Quick', name='fault1t_all', maxrun=2, maxfault=2 if thorough else 1))
+    faulty += leaves(gen_focus_all(chk, 'Programs3Fault', name='fault1t_mixed', maxrun=2, maxfault=2 if thorough else 1))
+    # two targets, three requests on the chain a -> b -> c with lean replies (nothing new / failure): release, withdrawal
+    # and late results interleaved across targets; every maximal history (thorough) or a stratified sample (quick)
+    lean = leaves(gen_focus_all(chk, 'ProgramsChain', name='lean2t_all', maxrun=3, spec='GenSpecLean', targets=TARGETS))
+    chk.counters['lean_two_target_histories'] = len(lean)
+    if not thorough:
+        rnd.shuffle(lean)
+        fails = [s for s in lean if any(e['ev'] == 'Reply' and e['out'] == 'failure' for e in s['h'])]
+        lean = fails[:1800] + [s for s in lean if not any(e['ev'] == 'Reply' and e['out'] == 'failure' for e in s['h'])][:400]
+    if not thorough:
+        rnd.shuffle(faulty)
+        faulty = [s for s in faulty if any(e['ev'] == 'TickFault' for e in s['h'])][:3500]
+        if pid == 'C02':
+            # the quick tier of C02 spends its time on the data plane (end state through the real worker and store);
+            # the withdrawal / fault instances address C01, C03, C04, C05 and run for C02 in the thorough tier
+            lean, faulty = lean[:300], faulty[:300]
+    focus += lean
     chk.counters['schedules_with_a_dispatch_fault'] = sum(1 for s in faulty if any(e['ev'] == 'TickFault' for e in s['h']))
     focus += faulty
     # ... and two targets, sampled
@@ -389,6 +409,7 @@ def run(pid, tier, seed, replay=None):
         transitions_replayed=len(scheds),
         sim_behaviours=len(sim3) + len(sim4),
         sampled_deep_transitions=len(focus),
+        transitions_of_focus_instance=total_focus,
         distinct_nontrivial=nontrivial(jobs3 + jobs4),
     )
     chk.assumptions = [
